@@ -100,18 +100,19 @@ func (e *engine) ID() string { return "C07" }
 func (e *engine) Meta() harness.Meta {
 	return harness.Meta{
 		Level: "exploration",
-		Rule: "a case is a seeded program nesting (depth <= 5) block / tagbody / unwind-protect / with-mutex-lock / with-open-file / ignore-errors " +
-			"around let, progn, when, cond, dolist, dotimes and lambda calls with exit leaves of every kind (fall through, return-from an enclosing " +
-			"block, go to a later tag, errors of several classes, an error inside a cleanup); it runs once fault-free and then once per " +
+		Rule: "a case is a seeded program nesting (depth <= 5) block / tagbody / unwind-protect / with-mutex-lock / with-open-file / ignore-errors / recover " +
+			"around let, progn, when, unless, cond, dolist, dotimes, do, prog, lambda calls and closures called by a method, with exit leaves of every kind " +
+			"at every body position (fall through, return-from an enclosing block, go to a later or - once - an earlier tag, errors of several classes, " +
+			"an error inside a cleanup); it runs once fault-free and then once per " +
 			"evaluation step k with an interrupt delivered at step k through Scope.InterruptCheck, and once per I/O plan (ENOSPC on the n-th write, " +
 			"on close, on open); one observer routine per mutex contends for it under a seeded schedule. evaluations = simulated runs; " +
 			"distinct_nontrivial = distinct event-log fingerprints among runs in which a fault fired or a context switch happened",
-		Real: []string{"cl:unwind-protect/block/return-from/tagbody/go/ignore-errors/let/progn/when/cond/dolist/dotimes", "gi:with-mutex-lock, gi:run",
+		Real: []string{"cl:unwind-protect/block/return-from/return/tagbody/go/ignore-errors/let/progn/when/unless/cond/dolist/dotimes/do/prog/lambda, flavors send", "gi:with-mutex-lock, gi:recover, gi:run",
 			"cl:with-open-file/open/close + slip.FileStream on a real file", "slip evaluator (Function.Eval, normalAfter)"},
 		Stub: []string{"Go scheduler", "sync.Mutex blocking", "the interrupt source (delivered through the production seam Scope.InterruptCheck)", "file-system failures (simos error plans)"},
 		Assumptions: []string{
-			"scoped to the cleanup / release / condition-class clause of C07; where return-from and go land is a pure function of the program and is not judged",
-			"an interrupt that lands on the evaluation of a region's own first marker may produce that region's cleanup without its enter marker (tolerated once per run)",
+			"exit transfer is judged structurally (only cleanups between an exit leaf and its target; the block yields the leaf's value); the value of return-from in general is not judged",
+			"interrupts are not delivered on the evaluation step of a marker itself, so markers are exact",
 		},
 		FaultKinds:    []string{"interrupt", "io_error", "cleanup_error", "schedule_perturbation"},
 		QuickCases:    1600,
